@@ -35,7 +35,8 @@ RULE = (
     "exhaustive grid = every store of up to 2 (thorough: 3) UTxOs over 2 addresses x lovelace 0..2 x token 0..2, "
     "times address {none,A,B} x ref {none, dangling, own, foreign} x 11 min_amount shapes x {single, many} x "
     "{input, collateral}; sampled 3-5 UTxO stores x grid; random stores of 1..80 UTxOs with amounts up to 2^62 "
-    "(crossing the 50-UTxO window); multi-block cases. Non-trivial = non-empty store and a constrained query; "
+    "(crossing the 50-UTxO window); one party's wallet of 49 / 50 / 51 / 52 / 64 / 100 / 300 UTxOs at the queried "
+    "address (the strict matches alone exceed the window); multi-block cases. Non-trivial = non-empty store and a constrained query; "
     "distinct = distinct (store, queries)"
 )
 
